@@ -393,6 +393,42 @@ func (st *c18State) sweep(worker int) {
 			}
 		}
 	}
+	// ---- G3b: an allowed denom is REMOVED while sell orders priced in it are open. The operations on
+	// those existing orders that do not name a price — purchases and cancellation — keep all their own
+	// preconditions and must keep working. (Every UpdateSellOrders entry must carry a price and a
+	// quantity — ValidateBasic — and re-pricing in a removed denom must be refused, C06; so updates are
+	// not among the operations whose preconditions hold here.)
+	for i, fr := range [][2]string{{"0", "0"}, {"0.02", "0.013"}, {"", ""}} {
+		c, err := newC18Chain(st, fmt.Sprintf("w%d-g3b-%d", worker, i), nil, nil)
+		if err != nil {
+			continue
+		}
+		batch, ok := c.setupMarket("g3b")
+		if !ok {
+			continue
+		}
+		denom := "uatom"
+		cfg := fmt.Sprintf("denom %s removed while orders open; fee_params buyer=%q seller=%q", denom, fr[0], fr[1])
+		if !c.try(&markettypes.MsgGovSetFeeParams{Authority: gov, Fees: &markettypes.FeeParams{BuyerPercentageFee: fr[0], SellerPercentageFee: fr[1]}}) {
+			continue
+		}
+		A := gen.Actors()
+		seller, buyer := A[3], A[5]
+		r := c.must(cfg, "sell", &markettypes.MsgSell{Seller: seller, Orders: []*markettypes.MsgSell_Order{
+			{BatchDenom: batch, Quantity: "10", AskPrice: coinP(denom, 1000), DisableAutoRetire: true},
+			{BatchDenom: batch, Quantity: "5", AskPrice: coinP(denom, 2000), DisableAutoRetire: false}}})
+		if r == nil || !r.OK {
+			continue
+		}
+		ids := r.Resps[0].(*markettypes.MsgSellResponse).SellOrderIds
+		if !c.try(&markettypes.MsgRemoveAllowedDenom{Authority: gov, Denom: denom}) {
+			continue
+		}
+		st.accepted++
+		st.cell(cfg)
+		c.must(cfg, "existing-order/buy", &markettypes.MsgBuyDirect{Buyer: buyer, Orders: []*markettypes.MsgBuyDirect_Order{{SellOrderId: ids[0], Quantity: "1.5", BidPrice: coinP(denom, 1000), DisableAutoRetire: true, MaxFeeAmount: coinP(denom, 100000)}}})
+		c.must(cfg, "existing-order/cancel", &markettypes.MsgCancelSellOrder{Seller: seller, SellOrderId: ids[1]})
+	}
 	// ---- G4: configurations set in GENESIS (accepted by the module's ValidateGenesis)
 	type m = map[string]interface{}
 	set := func(eco map[string]json.RawMessage, table string, v interface{}) {
